@@ -76,6 +76,25 @@ func (t *Collection) reclaimMarkUpdate(nloc *nodeLoc,
 	return n
 }
 
+// reclaimMarkClear undoes the markReclaimable() calls of an abandoned
+// mutation, so that the still current version keeps all of its nodes.
+func (t *Collection) reclaimMarkClear(nloc *nodeLoc, reclaimMark *node) {
+	if nloc.isEmpty() {
+		return
+	}
+	n := nloc.Node()
+	if n == nil {
+		return
+	}
+	t.rootLock.Lock()
+	if n.next == reclaimMark {
+		n.next = nil
+	}
+	t.rootLock.Unlock()
+	t.reclaimMarkClear(&n.left, reclaimMark)
+	t.reclaimMarkClear(&n.right, reclaimMark)
+}
+
 func (t *Collection) reclaimNodesUnlocked(n *node,
 	reclaimLater *[3]*node, reclaimMark *node) int64 {
 	if n == nil {
